@@ -323,7 +323,7 @@ def r4_conversion_path(ctx, rep):
             continue
         lits = [l for l in astq.path_literals(kw["path"], pn) if l]
         ok = lits == [d_page] and astq.mentions(kw["path"], "output_dir", pn) and (
-            astq.mentions(kw["path"], "self.path.parent", pn) or astq.mentions(kw["path"], "self.location", pn))
+            astq.mentions_whole(kw["path"], "self.path.parent", pn) or astq.mentions_whole(kw["path"], "self.location", pn))
         rep.ob("page text is converted relative to its own output directory", ok,
                f"links in a nested page are made relative to <out>/{d_page}/<sub-directory>" if ok else
                f"path= is built from {[ast.unparse(e) for e in astq.expand_locals(kw['path'], pn)]}: not <output_dir>/{d_page}/<directory of the page>",
@@ -376,6 +376,15 @@ def r5_copy_for_every_page(ctx, rep):
     mk = [c for c in astq.calls(fn, "mkdir", "makedirs") if "location" in ast.unparse(c)]
     ok = bool(mk) and bool(sup) and mk[0].lineno < sup[0].lineno
     rep.ob("an index page creates its directory first", ok, "", py.nloc(fn))
+    ct = py.func("output.copytree")
+    uses_lib = any(call_name(c) in ("shutil.copytree",) for c in py.walk_calls(ct))
+    mk = [c for c in py.walk_calls(ct) if isinstance(c.func, ast.Attribute) and c.func.attr == "mkdir"]
+    mk_ok = all(any(k.arg == "parents" and isinstance(k.value, ast.Constant) and k.value.value is True for k in c.keywords) for c in mk)
+    ok = uses_lib or (bool(mk) and mk_ok) or any(call_name(c) in ("os.makedirs",) for c in py.walk_calls(ct))
+    rep.ob("copy helper creates missing parent directories", ok,
+           "shutil.copytree / makedirs semantics" if ok else
+           "copytree() creates the destination with a plain mkdir(): a nested `copy_subdir: assets/img` whose parent does not "
+           "exist in the output fails and the directory is silently not copied", py.nloc(ct))
     pn = py.func("PageNode.__init__")
     asg = astq.assignments(pn, "self.copy_subdir")
     ok = bool(asg) and any(isinstance(v, (ast.BoolOp, ast.IfExp)) and "meta.copy_subdir" in ast.unparse(v)
